@@ -43,8 +43,9 @@ def _dump_fn():
 
 
 # R: the shell's own listing of its state.  Its format is shell-specific, so it is only ever compared
-# with itself (before vs after the context, in the same shell).
-RAW_FN = ("R() {\ndeclare -p s t a m o OPTIND PWD OLDPWD 2>/dev/null\ndeclare -f fn1 fn2 h pf 2>/dev/null\n"
+# with itself (before vs after the context, in the same shell).  The associative array m is left to
+# D: the interpreter's `declare -p` lists the keys of a map in Go's random iteration order.
+RAW_FN = ("R() {\ndeclare -p s t a o OPTIND PWD OLDPWD 2>/dev/null\ndeclare -f fn1 fn2 h pf 2>/dev/null\n"
           "alias\nshopt\nset -o\nprintf '%s|' \"$PWD\" \"$#\" \"$@\"\necho\n}\n")
 H_FN = "h() { local s=hl; t=ht; a[1]=ha; }\n"
 PRELUDE = "B=$PWD\n" + _dump_fn() + RAW_FN + H_FN
@@ -154,17 +155,28 @@ def run_impl(h, cases):
             vecs.append({k: c.prog[k] for k in ("api", "pre", "child", "post")})
         else:
             vecs.append({"src": c.prog["src"]})
-    res = vlib.run_harness(h, "c27", vecs, shards=16)
+    # one OS thread per shard: the programs are sequential and 16 shards x GOMAXPROCS=16 only thrash
+    res = vlib.run_harness(h, "c27", vecs, shards=16, env_extra={"GOMAXPROCS": "2"})
     for c, r in zip(cases, res):
         c.impl = r
 
 
-def run_bash(cases):
+def run_bash(cases, budget_s=None):
+    """bash on the given cases, in chunks, until the time budget is used up (fork throughput of the
+    sandbox varies a lot with the load of the machine).  Returns the number of cases run."""
+    import time
     todo = [c for c in cases if c.ctx != "api"]
-    res = vlib.run_shell_evals([c.prog["body"] for c in todo], prelude="mkdir -p d1/d2\n" + PRELUDE, isolate=True,
-                               per_process=1500, jobs=2, timeout=900)
-    for c, r in zip(todo, res):
-        c.bash = r
+    t0, done = time.time(), 0
+    for o in range(0, len(todo), 150):
+        if budget_s is not None and done and time.time() - t0 > budget_s:
+            break
+        part = todo[o:o + 150]
+        res = vlib.run_shell_evals([c.prog["body"] for c in part], prelude="mkdir -p d1/d2\n" + PRELUDE, isolate=True,
+                                   per_process=75, jobs=2, timeout=900)
+        for c, r in zip(part, res):
+            c.bash = r
+        done += len(part)
+    return done
 
 
 def judge(ck, pds, devmap, c, stats):
@@ -206,7 +218,7 @@ def judge(ck, pds, devmap, c, stats):
         changed.append("Go")
     if changed:
         stats["parent_changed"] += 1
-        dev = devmap(v) if devmap else None
+        dev = devmap.get(id(c)) if devmap else None
         if ctx == "pipelast" and s["P1"] == expC:
             key = "Dev_LastPipe"
         elif dev is not None and s["P1"] == render_view(dev):
@@ -238,6 +250,39 @@ def judge(ck, pds, devmap, c, stats):
         ck.sample({"ctx": ctx, "parent": short(v["pd"]), "muts": v["muts"], "child_dump": s["C"][:160], "parent_dump": s["P1"][:160]}, cap=4)
 
 
+def parent_changed(c):
+    r = c.impl
+    if r.get("panic") or r.get("timeout") or r.get("run_error") or r.get("harness_error"):
+        return False
+    s = sections(r["out"])
+    return bool(r.get("go_changed")) or s.get("P0") != s.get("P1") or s.get("R0") != s.get("R1") or s.get("G0") != s.get("G1")
+
+
+def dev_predictions(ck, cases):
+    """Aim the deviation model (Buggy = TRUE) at exactly the behaviours on which the interpreter changed
+    its parent: TLC replays them (Replay = TRUE) and emits the parent view Dev_AppendInPlace predicts.
+    Returns {id(case): predicted parent view}.  Nothing is run when no case failed."""
+    bad = [c for c in cases if c.ctx != "pipelast" and parent_changed(c)]
+    if not bad:
+        return {}
+    import os
+    work = vlib.scratch("c27dev-")
+    try:
+        path = os.path.join(work, "listed.ndjson")
+        with open(path, "w") as f:
+            for i, c in enumerate(bad):
+                kind = "share" if c.ctx in ("sub", "cmdsub", "pipelast") else "copy"
+                f.write(json.dumps({"id": i, "pd": c.vec["pd"], "kind": kind, "muts": c.vec["muts"]}) + "\n")
+        d = vlib.run_tlc("ShSubshell", "ShSubshell.devreplay.cfg", workers=4, timeout=900, tags=("DEV",),
+                         env_extra={"VERIF_TRACE": path})
+        ck.add_tlc(d)
+        ck.notes["dev_replay"] = {"listed": len(bad), "predicted": len(d.vecs.get("DEV", [])), "wall_s": round(d.wall, 1)}
+        return {id(bad[x["id"]]): x["pview"] for x in d.vecs.get("DEV", [])}
+    finally:
+        import shutil
+        shutil.rmtree(work, ignore_errors=True)
+
+
 def tlc_cfg(ck, name):
     return "ShSubshell.%s.cfg" % name
 
@@ -245,6 +290,7 @@ def tlc_cfg(ck, name):
 def run(ck):
     h = vlib.build_harness("conc")
     quick = ck.tier == "quick"
+    all_ctx_thorough = False
     # -- model self-test: the aliasing switch must break Isolation (non-vacuity of the invariant)
     if not quick:
         bt = vlib.run_tlc("ShSubshell", "ShSubshell.buggy.cfg", workers=4, timeout=600, tags=())
@@ -259,35 +305,45 @@ def run(ck):
         raise vlib.Inconclusive("ShSubshell: the contract model is inconsistent:\n" + (t.violation or t.raw_tail))
     pds = {pdkey(p["pd"]): p for p in t.vecs.get("PD", [])}
     vecs = t.vecs.get("VEC", [])
+    if not quick:
+        # seeded random behaviours with three mutators (TLC -simulate on the same Next)
+        sim = vlib.run_tlc("ShSubshell", "ShSubshell.sim.cfg", simulate=6000, depth=4, seed=ck.seed, timeout=1500,
+                           tags=("VEC", "PD"), heap="6g")
+        ck.add_tlc(sim)
+        if not sim.ok:
+            raise vlib.Inconclusive("ShSubshell (simulation): contract model inconsistent:\n" + (sim.violation or sim.raw_tail))
+        seen = set()
+        for v in sim.vecs.get("VEC", []):
+            k = (pdkey(v["pd"]), v["ctxs"][0], json.dumps(v["muts"]))
+            if len(v["muts"]) == 3 and k not in seen:
+                seen.add(k)
+                vecs.append(v)
+        ck.notes["simulated_len3_behaviours"] = len(seen)
     ck.notes["behaviours"] = len(vecs)
     ck.notes["parent_descriptors"] = len(pds)
+    # Every behaviour with at most one mutator runs in every context of its kind; in the quick tier a
+    # longer one runs in ONE context of its kind, assigned round-robin (offset by the seed), so each
+    # context still gets its share of every parent descriptor; the thorough tier runs them all.
     cases = []
-    for v in vecs:
+    for i, v in enumerate(vecs):
         pd = pds[pdkey(v["pd"])]
-        for ctx in v["ctxs"]:
+        ctxs = v["ctxs"]
+        if quick and len(v["muts"]) > 1:
+            ctxs = [ctxs[(i + ck.seed) % len(ctxs)]]
+        elif not quick and len(v["muts"]) > 1 and not all_ctx_thorough:
+            ctxs = [ctxs[(i + ck.seed) % len(ctxs)]]
+        for ctx in ctxs:
             cases.append(Case(v, ctx, render(pd, v, ctx)))
     run_impl(h, cases)
-    # -- bash on a subset (one fork per snippet plus the context's own forks; ~300 forks/s here):
-    # every behaviour with at most one mutator in every context, and a seeded sample of the rest.
-    budget = 2500 if quick else 60000
+    # -- bash on a subset (one fork per snippet plus the context's own forks; fork throughput here is
+    # ~300/s at best): behaviours with at most one mutator first, then a seeded sample of the rest,
+    # until the time budget is used up.
     small = [c for c in cases if c.ctx != "api" and len(c.vec["muts"]) <= 1]
     rest = [c for c in cases if c.ctx != "api" and len(c.vec["muts"]) > 1]
+    ck.rng.shuffle(small)
     ck.rng.shuffle(rest)
-    if len(small) > budget:
-        ck.rng.shuffle(small)
-    sel = (small + rest)[:max(budget, 0)]
-    run_bash(sel)
-    # -- known-defect recogniser: parent views under Dev_AppendInPlace, computed only if needed
-    devcache = {}
-
-    def devmap(v):
-        if "m" not in devcache:
-            d = vlib.run_tlc("ShSubshell", tlc_cfg(ck, "dev" + ck.tier), workers=8, timeout=1500, tags=("DEV",), heap="6g")
-            ck.add_tlc(d)
-            devcache["m"] = {(pdkey(x["pd"]), x["kind"], json.dumps(x["muts"])): x["pview"] for x in d.vecs.get("DEV", [])}
-        kind = "share" if v["ctxs"][0] == "sub" else "copy"
-        return devcache["m"].get((pdkey(v["pd"]), kind, json.dumps(v["muts"])))
-
+    run_bash(small + rest, budget_s=25 if quick else 300)
+    devmap = dev_predictions(ck, cases)
     stats = {"bash": 0, "parent_changed": 0, "nontrivial": 0}
     for c in cases:
         judge(ck, pds, devmap, c, stats)
@@ -315,4 +371,4 @@ def replay(ck, rec):
         run_bash([c])
     stats = {"bash": 0, "parent_changed": 0, "nontrivial": 0}
     pds = {pdkey(pd["pd"]): pd}
-    judge(ck, pds, None, c, stats)
+    judge(ck, pds, dev_predictions(ck, [c]), c, stats)
